@@ -289,7 +289,8 @@ def build(model):
 
 
 # ------------------------------------------------------------------------------------------------
-CH_NAMES = ['DEPT', 'TIME', 'GR', 'CAL', 'TENS', 'RHOB', 'NPHI', 'TDEP', 'INDEX', 'WF1', 'IMG', 'SP', 'ILD']
+# some names differ only in surrounding blanks or in case: they are different channels
+CH_NAMES = ['DEPT', 'TIME', 'GR', 'CAL', 'TENS', 'RHOB', 'NPHI', 'TDEP', 'INDEX', 'WF1', 'IMG', 'SP', 'ILD', 'GR ', ' GR', 'gr', 'SP  ']
 UNITS_POOL = ['m', 'ft', 's', 'gAPI', 'in', 'lbf', 'g/cm3', '', '0.1 in', 'ms']
 
 
@@ -328,7 +329,9 @@ def gen_lf(rng, li, max_frames=30, names_pool=None, origin=None, waves=False):
             nrows = min(nrows, 8)
         if any(np.prod(channels[c]['dims']) > 400 for c in idx):
             nrows = min(nrows, 3)
-        x0 = rng.pick([100.0, 2889.4, 0.0, 5000.0, 12.5])
+        # -999.25 / -999 are ordinary numbers in RP66V1 (the format has no absent value): an X axis may pass through them
+        x0 = rng.pick([100.0, 2889.4, 0.0, 5000.0, 12.5, 100.0, 0.0, -999.25, -1000.0, -999.0])
+        xi0 = rng.pick([1000, 1000, 1000, -999, -1009, 0])
         # a coarse or stuck index (whole seconds at 2.5 Hz, a station log) repeats its value from frame to frame
         dx = rng.pick([0.5, 1.5, -0.25, 0.1524, 1.0, 10.0, 0.5, 1.0, 0.0])
         # frame numbers are UVARI: 1, 2 or 4 bytes, changing at 128 and 16384; logs do not all start at frame 1
@@ -346,7 +349,7 @@ def gen_lf(rng, li, max_frames=30, names_pool=None, origin=None, waves=False):
                 for d in ch['dims']:
                     count *= d
                 if k == 0:
-                    bits.append([gen_bits(rng, ch['rep'], x_hint=x0 + r * dx if ch['rep'] in (FSINGL, FDOUBL, ISINGL) else 1000 + r * 10) for _ in range(count)])
+                    bits.append([gen_bits(rng, ch['rep'], x_hint=x0 + r * dx if ch['rep'] in (FSINGL, FDOUBL, ISINGL) else max(0, xi0 + r * 10) if ch['rep'] in (ULONG, UNORM, USHORT) else xi0 + r * 10) for _ in range(count)])
                 else:
                     bits.append([gen_bits(rng, ch['rep']) for _ in range(count)])
             rows.append({'fno': fno, 'bits': bits})
